@@ -444,7 +444,10 @@ func (sc *Scenario) Model(vars Vars) (exp Expect, err error) {
 	if perr != nil {
 		return exp, fmt.Errorf("model: query does not parse: %w", perr)
 	}
-	code, cerr := gojq.Compile(query, gojq.WithInputIter(q), gojq.WithVariables(vars.Names))
+	// the command's own builtins that write to stderr only: identity as far as stdout is concerned
+	ident := func(v any, _ []any) any { return v }
+	code, cerr := gojq.Compile(query, gojq.WithInputIter(q), gojq.WithVariables(vars.Names),
+		gojq.WithFunction("debug", 0, 0, ident), gojq.WithFunction("stderr", 0, 0, ident))
 	if cerr != nil {
 		return exp, fmt.Errorf("model: query does not compile: %w", cerr)
 	}
